@@ -30,9 +30,11 @@ PROPERTIES = {}     # nothing is registered here (see the module docstring)
 INV = {"C14": "C14_OnlyAuthorizedSignersChangeState", "C15": "C15_FeeChargedExactlyOnce", "C16": "C16_AtMostOnce",
        "C17": "C17_SupplyIsSumOfBalances", "C18": "C18_TransfersExact", "C19": "C19_NodePoolExact", "C20": "C20_AppPoolExact",
        "C21": "C21_IndexesAgreeWithRecords", "C22": "C22_UpdatesMatchTopStaked", "C23": "C23_EditStakeRules",
-       "C24": "C24_UnstakeOnceWhenDue", "C25": "C25_SlashJailRules", "C28": "C28_AdmissionAndTransfer",
+       "C24": "C24_UnstakeOnceWhenDue", "C25": "C25_SlashJailRules", "C26": "C26_RewardsAndFeesSplit", "C28": "C28_AdmissionAndTransfer",
+       "C31": "C31_ProofLeafUnpredictable",
        "C32": "C32_ClaimsRewardedOnceWithProof", "C36": "C36_OnlyOwnersChangeParamsOrDaoFunds", "C37": "C37_UpgradesActivateAndAreNeverLost"}
 PIDS = sorted(INV)
+ALL = "all"      # development gate: every tag of every property (and "MODEL") is judged; cfg TracePocketChain_all.cfg
 
 NODE_POOL, APP_POOL = "staked_tokens_pool", "application_staked_tokens_pool"
 NODE_IDX = {"ixStaked", "ixChain", "ixUnstaking"}
@@ -99,6 +101,8 @@ def tags_of_mismatch(m):
     if field == "appIx":
         tags.add("C28")
     if op == "BeginBlock":
+        if field == "bal" and not tags:
+            tags.add("C26")      # distribution of the collected fees
         if field in ("val", "signing", "missed", "ixWaiting", "supply"):
             tags.add("C25")
         if field in ("tmSet", "prevPower", "prevTotal"):
@@ -111,6 +115,8 @@ def tags_of_mismatch(m):
                 break
         if field == "bal" and "fee_collector" in _keys(m):
             tags.add("C15")
+        if field == "bal" and name.startswith("proof"):
+            tags.add("C26")      # who received how much of the relay reward
     elif op == "EndBlock":
         if field in ("updates", "tmSet", "prevPower", "prevTotal"):
             tags.add("C22")
@@ -137,7 +143,7 @@ def _design_and_replay(c, pid, init, cfg, what, simulate=None):
     if not res.ok and res.generated == 0 and res.violated and res.violated.endswith("_Design"):
         # the INITIAL state of the design model is the projection of the real chain after its warm-up
         # (transactions, fee distribution, session end): a property predicate false there is false on real-code state
-        if res.violated.startswith(pid + "_") or res.violated == "All_Design":
+        if pid == ALL or res.violated.startswith(pid + "_") or res.violated == "All_Design":
             c.violation("%s: the projection of the real warmed-up chain (design model's initial state) violates %s" % (pid, res.violated),
                         {"kind": "init-state", "harness_cmd": [BIN, "init-state"], "violated": res.violated, "final_state": res.final_state})
         else:
@@ -162,7 +168,7 @@ def _design_and_replay(c, pid, init, cfg, what, simulate=None):
         oc[k] = oc.get(k, 0) + v
     mine, abandoned = [], 0
     for m in rep.get("mismatches", []):
-        if pid in tags_of_mismatch(m):
+        if pid == ALL or pid in tags_of_mismatch(m):
             mine.append(m)
         else:
             abandoned += 1
@@ -172,14 +178,18 @@ def _design_and_replay(c, pid, init, cfg, what, simulate=None):
 
 def _corruptor(pid):
     """Binding self-test: alter one logged value inside this property's footprint."""
+    if pid == ALL:
+        pid = "C17"
+
     def corrupt(lines):
-        state = {}
+        state, first_h = {}, 0
         for i, l in enumerate(lines):
             e = json.loads(l)
             st = e.get("st", {})
             prev = dict(state)
             if e.get("ev") == "reset":
                 state = {}
+                first_h = e.get("h", 0)
             state.update(st)
             if i < 8:
                 continue
@@ -231,8 +241,16 @@ def _corruptor(pid):
                 n = [n for n, v in st["val"].items() if v.get("jailed") and not prev["val"].get(n, {}).get("jailed", True)][0]
                 st["val"][n]["jailed"] = False                         # slashed for downtime but not jailed
                 hit = True
+            elif pid == "C26" and ev == "DeliverTx" and ok and tx.get("kind") == "proof" and "bal" in st and "supply" in st:
+                a, b = sorted(k for k in st["bal"] if k.startswith("a"))[:2]
+                st["bal"][a] += 1                                      # one uPOKT of the reward went to somebody else
+                st["bal"][b] -= 1
+                hit = True
             elif pid == "C28" and ev == "DeliverTx" and ok and tx.get("kind") == "app_stake" and "app" in st and tx.get("app") in st["app"]:
                 st["app"][tx["app"]]["maxRelays"] += 1                 # allowance not derived from the stake
+                hit = True
+            elif pid == "C31" and ev == "DeliverTx" and ok and tx.get("kind") == "claim" and tx.get("sessionH", 0) - 8 >= first_h:
+                tx["sessionH"] -= 8                                    # accepted long after its selecting block existed
                 hit = True
             elif pid == "C32" and ev == "DeliverTx" and ok and tx.get("kind") == "proof" and "claims" in st:
                 st["claims"] = prev["claims"]                          # paid but the claim is still there
@@ -275,13 +293,13 @@ def _validate_files(c, pid, files, kf, what, harness_cmd):
         else:
             vf.trace_violation_from_tlc(c, res, path, "%s (%s)" % (what, os.path.basename(path)), harness_cmd)
     c.parts.append("%s: %d/%d trace files (%d events) accepted by TracePocketChain with %s" % (
-        what, accepted, len(files), sum(max(r.distinct - 1, 0) for r in results), INV[pid]))
+        what, accepted, len(files), sum(max(r.distinct - 1, 0) for r in results), INV.get(pid, "NoErrs")))
     return results, seen
 
 
 def whole_chain_part(c, pid, selftest=True):
     """The whole-chain stage of property `pid` on the vf.Check object c (no c.finish)."""
-    if pid not in INV:
+    if pid not in INV and pid != ALL:
         return
     thorough = c.tier == "thorough"
     vf.build_harness([BIN])
@@ -294,12 +312,10 @@ def whole_chain_part(c, pid, selftest=True):
     # ---- (a) unified design model from the projection of a real chain; every transition replayed
     init = os.path.join(c.scratch, "all-init.json")
     vf.run_harness(BIN, ["init-state", "-out", init], env={"VERIF_SEED": c.seed})
-    if thorough:
-        _design_and_replay(c, pid, init, "MCPocketChain_cover_t.cfg", "transition cover (3 blocks)")
-        if not c.violations:
-            _design_and_replay(c, pid, init, "MCPocketChain_sim_t.cfg", "simulation (8 blocks deep)", simulate=dict(num=25, depth=10))
-    else:
-        _design_and_replay(c, pid, init, "MCPocketChain_cover_q.cfg", "transition cover (2 blocks)")
+    _design_and_replay(c, pid, init, "MCPocketChain_cover_q.cfg", "transition cover (2 blocks)")
+    if thorough and not c.violations:
+        # 48 random walks of 8 blocks; every successor of the last step is emitted (36 behaviours per walk)
+        _design_and_replay(c, pid, init, "MCPocketChain_sim_t.cfg", "simulation (8 blocks deep)", simulate=dict(num=6, depth=10))
     if c.violations:
         return
 
@@ -315,7 +331,7 @@ def whole_chain_part(c, pid, selftest=True):
     files = ["%s.%d" % (tr, i) for i in range(split)]
     kf, open_known = _known_file(c)
     cmd = [BIN] + [str(a) for a in targs]
-    results, seen = _validate_files(c, pid, files, kf, "whole-chain traces (%d mixed chains of %d blocks + 8 cross-module scenarios)" % (nrand, blocks), cmd)
+    results, seen = _validate_files(c, pid, files, kf, "whole-chain traces (%d mixed chains of %d blocks + 10 cross-module scenarios)" % (nrand, blocks), cmd)
     if all(r.ok for r in results):
         c.add("traces_validated_against_impl", rep.get("behaviours", 0))
     for kid, (fn, line) in sorted(seen.items()):
@@ -348,7 +364,7 @@ def whole_chain_part(c, pid, selftest=True):
 def main(argv):
     import argparse
     ap = argparse.ArgumentParser(description="run the whole-chain stage stand-alone for one property id")
-    ap.add_argument("pid", choices=PIDS)
+    ap.add_argument("pid", choices=PIDS + [ALL])
     ap.add_argument("--tier", default=os.environ.get("VERIF_TIER", "quick"))
     ap.add_argument("--seed", type=int, default=int(os.environ.get("VERIF_SEED", "1") or 1))
     a = ap.parse_args(argv)
